@@ -22,6 +22,8 @@ def build_lines(st, decorate, rnd):
     S, Ls, other = [], [], []
     for n in sorted(st["nodes"], key=lambda n: n["id"]):
         tags = [f"LN:i:{n['ln']}", f"SN:Z:{n['sn']}", f"SO:i:{n['so']}", f"SR:i:{n['sr']}"]
+        if decorate and n["sr"] == 1 and int(n["id"][1:]) % 4 == 2:
+            tags = [f"LN:i:{n['ln']}"]       # a segment outside the rGFA reference annotation: no SN / SO / SR at all
         if decorate:
             extra = [["xn:i:-3"], ["xx:Z:a:b", "xf:f:1e-05"], ["xs:Z:two words "], ["xa:A:*"]][int(n["id"][1:]) % 4]
             tags += extra
@@ -244,6 +246,8 @@ def sessions(ctx, cfgs, mode, opts_for=lambda k: {}):
             # (chr1 / chr10 / chr2) in either assignment, as real assemblies do
             ren = [{}, {"chrA": "chr10", "chrB": "chr1", "chrC": "chr2"}, {"chrA": "chr1", "chrB": "chr10", "chrC": "chr100"}][k % 3]
             nodes = [dict(n, sn=ren.get(n["sn"], n["sn"])) for n in st["nodes"]]
+            if k % 2 == 1:      # assembler-style names of the non-reference contigs: they sort AFTER the chromosome names
+                nodes = [dict(n, sn=("ptg0000" + n["sn"][3:] + "l") if n["sr"] == 1 and n["sn"].startswith("alt") else n["sn"]) for n in nodes]
             chroms = [dict(c, name=ren.get(c["name"], c["name"])) for c in st["chroms"]]
             links = st["links"]
             jobs.append((f"{cfg[12:-4]}-{k}", {"nodes": nodes, "links": links, "chroms": chroms}, mode, ctx.seed * 1009 + k, opts_for(k)))
